@@ -41,8 +41,16 @@ OPS = [
     (r'\?;', '.ok();'), (r'\breturn Err\(', 'let _ = Err::<(), _>('), (r'\.push\(', '.len(); let _ = ('), (r'else if ', 'else if false && '),
     (r'\bmatches!\(', '!matches!('), (r'\.chain\(', '.chain(::core::iter::empty()).take(0).chain('), (r'\.extend\(', '.len(); let _ = ('),
     (r'\.any_custom_bound\(\)', '.all_custom_bound()'), (r'\.all_custom_bound\(\)', '.any_custom_bound()'), (r'\.trait_skipped\(', '.group_skipped(SkipGroup::Debug) || self.trait_skipped('),
+    # fourth operator set: forced branches, forgotten first / last element, misspelt option names
+    (r'\bif (?!let\b)([^{;]+) \{', 'if true || (\\1) {'), (r'\bif (?!let\b)([^{;]+) \{', 'if false && (\\1) {'),
+    (r'\.iter\(\)', '.iter().skip(1)'), (r'\.iter\(\)', '.iter().take(1)'), (r'is_ident\("(\w+)"\)', 'is_ident("\\1_")'),
+    (r'is_ident\((\w+::\w+)\)', 'is_ident("never")'), (r'\.supports_union\(\)', '.supports_union() || true'), (r'\.unwrap_or_default\(\)', '.map(|_| Default::default()).unwrap_or_default()'),
+    # fifth: an error returned as the value of a branch (no `return`) swallowed
+    (r'(?<!return )\bErr\((Error::\w+\(.*\))\)(,?)$', 'Ok({ let _ = \\1; Default::default() })\\2'),
 ]
 OPS3_FROM = 52
+OPS4_FROM = 62
+OPS5_FROM = 70
 
 
 def sites(repo, files=None):
